@@ -282,8 +282,13 @@ func (r *run) execRestore(st *Step) {
 		}
 	}
 	b := &backup.Backup{Conn: r.w.client(n), Dir: rec.dir, Timeout: time.Hour, Log: quietLog{}}
+	ms0, _ := r.w.u.Shard("L", 1000)
 	err := b.Restore()
 	settle()
+	ms1, _ := r.w.u.Shard("L", 1000)
+	for _, mt := range rec.man.Tables {
+		r.restoreWins[mt.Name] = append(r.restoreWins[mt.Name], [2]uint64{ms0.Last, ms1.Last})
+	}
 	time.Sleep(200 * time.Millisecond)
 	settle()
 	anyCorrupt := false
